@@ -539,6 +539,12 @@ for _n, _s in _dynidx_programs():
     prog(_n, _s)
 
 # programs isolating constructs with an open finding (mismatch expected; key diff:<name>)
+# statement forms with inlined operator operands (lib/opforms.py): atomic statements whose index and value operands are
+# operator expressions used once
+import opforms as _opforms
+for _n, _s in _opforms.programs():
+    prog(_n, _s, hdr=False)
+
 KNOWN = []
 
 
